@@ -37,25 +37,47 @@ Qed.
 Lemma in_del_assoc {A} k (m : list (nat * A)) p : In p (del_assoc k m) -> In p m.
 Proof. unfold del_assoc. rewrite filter_In. tauto. Qed.
 
-(* ------------------------------------------------------------------ ellipsis-first layouts *)
-Definition lay_first (l : layout) : Prop := exists rest, l = LEll :: rest /\ count_ell rest = 0.
+(* ------------------------------------------------------------------ layouts with one ellipsis *)
 Definition wf_entry (e : entry) : Prop :=
-  exists rest, e_lay e = LEll :: rest /\ count_ell rest = 0 /\ length rest <= length (shp (e_arr e)).
+  exists pre rest, e_lay e = pre ++ LEll :: rest /\ count_ell pre = 0 /\ count_ell rest = 0 /\
+                   length pre + length rest <= length (shp (e_arr e)).
 
-Lemma shared_axes_first rest sh :
-  shared_axes sh (LEll :: rest) = firstn (length sh - length rest) sh.
+Lemma count_one_split l :
+  count_ell l = 1 -> exists pre rest, l = pre ++ LEll :: rest /\ count_ell pre = 0 /\ count_ell rest = 0.
 Proof.
-  unfold shared_axes, slice. simpl. f_equal. lia.
+  unfold count_ell. induction l as [|x l IH]; simpl; [discriminate|].
+  destruct x; simpl; intros H;
+    try (destruct (IH H) as [pre [rest [-> [H1 H2]]]]; eexists (_ :: pre), rest; simpl; repeat split; auto).
+  exists [], l. simpl. repeat split; auto.
 Qed.
 
-Lemma bshape_first S rest sh :
-  bshape S sh (LEll :: rest) = S ++ skipn (length sh - length rest) sh.
+Lemma count_split_one pre rest : count_ell pre = 0 -> count_ell rest = 0 -> count_ell (pre ++ LEll :: rest) = 1.
+Proof. unfold count_ell. intros H1 H2. rewrite filter_app, app_length. simpl. lia. Qed.
+
+Lemma ell_index_split pre rest : count_ell pre = 0 -> ell_index (pre ++ LEll :: rest) = length pre.
 Proof.
-  unfold bshape. simpl. do 2 f_equal. lia.
+  unfold count_ell. induction pre as [|x pre IH]; simpl; auto.
+  destruct x; simpl; intros H; try discriminate H; f_equal; auto.
 Qed.
 
-Lemma count_ell_first rest : count_ell rest = 0 -> count_ell (LEll :: rest) = 1.
-Proof. unfold count_ell. simpl. intros ->. reflexivity. Qed.
+Lemma nth_ell_split pre rest : nth (length pre) (pre ++ LEll :: rest) LFree = LEll.
+Proof. rewrite app_nth2 by lia. now rewrite Nat.sub_diag. Qed.
+
+Lemma shared_axes_split pre rest sh :
+  count_ell pre = 0 ->
+  shared_axes sh (pre ++ LEll :: rest) = slice (length pre) (length sh - length rest) sh.
+Proof.
+  intros H. unfold shared_axes. rewrite ell_index_split by assumption. rewrite app_length. simpl.
+  f_equal. lia.
+Qed.
+
+Lemma bshape_split S pre rest sh :
+  count_ell pre = 0 ->
+  bshape S sh (pre ++ LEll :: rest) = firstn (length pre) sh ++ S ++ skipn (length sh - length rest) sh.
+Proof.
+  intros H. unfold bshape. rewrite ell_index_split by assumption. rewrite app_length. simpl.
+  do 3 f_equal. lia.
+Qed.
 
 Lemma name_index_lt ax l : has_name ax l = true -> name_index ax l < length l.
 Proof.
@@ -63,26 +85,34 @@ Proof.
   destruct (is_name ax x); simpl; [lia|]. intros H. specialize (IH H). lia.
 Qed.
 
-(* positions of the non-ellipsis items of an ellipsis-first layout lie behind the shared part *)
-Lemma pos_of_first rest ndim i :
-  1 <= i -> i <= length rest -> length rest <= ndim ->
-  pos_of ndim (LEll :: rest) i = ndim - length rest + (i - 1) /\
-  ndim - length rest <= pos_of ndim (LEll :: rest) i < ndim.
+Lemma name_index_nth ax l : has_name ax l = true -> is_name ax (nth (name_index ax l) l LFree) = true.
 Proof.
-  intros H1 H2 H3. unfold pos_of. simpl.
-  destruct (Nat.ltb_spec i 0); [lia|]. lia.
+  unfold has_name. induction l as [|x l IH]; simpl; [discriminate|].
+  destruct (is_name ax x) eqn:E; simpl; auto.
 Qed.
 
-Lemma named_axes_first rest ndim p :
-  length rest <= ndim -> In p (named_axes ndim (LEll :: rest)) ->
-  ndim - length rest <= fst p < ndim.
+(* positions of the non-ellipsis items lie outside the broadcast part *)
+Lemma pos_of_split pre rest ndim i :
+  count_ell pre = 0 -> i < length (pre ++ LEll :: rest) -> i <> length pre ->
+  length pre + length rest <= ndim ->
+  pos_of ndim (pre ++ LEll :: rest) i < ndim /\
+  (pos_of ndim (pre ++ LEll :: rest) i < length pre \/ ndim - length rest <= pos_of ndim (pre ++ LEll :: rest) i).
 Proof.
-  intros Hr Hin. unfold named_axes in Hin. apply in_flat_map in Hin.
+  intros Hc Hi Hne Hr. unfold pos_of. rewrite ell_index_split by assumption.
+  rewrite app_length in *. simpl in *.
+  destruct (Nat.ltb_spec i (length pre)); lia.
+Qed.
+
+Lemma named_axes_split pre rest ndim p :
+  count_ell pre = 0 -> length pre + length rest <= ndim ->
+  In p (named_axes ndim (pre ++ LEll :: rest)) ->
+  fst p < ndim /\ (fst p < length pre \/ ndim - length rest <= fst p).
+Proof.
+  intros Hc Hr Hin. unfold named_axes in Hin. apply in_flat_map in Hin.
   destruct Hin as [i [Hi Hp]]. apply in_seq in Hi.
-  destruct i as [|i]; [simpl in Hp; contradiction|].
-  destruct (nth (S i) (LEll :: rest) LFree) eqn:E; try contradiction.
-  destruct Hp as [<-|[]]. simpl fst.
-  apply pos_of_first; simpl in *; lia.
+  destruct (Nat.eq_dec i (length pre)) as [->|Hne]; [rewrite nth_ell_split in Hp; contradiction|].
+  destruct (nth i (pre ++ LEll :: rest) LFree) eqn:E; try contradiction.
+  destruct Hp as [<-|[]]. simpl fst. apply pos_of_split; auto. lia.
 Qed.
 
 (* ------------------------------------------------------------------ resize keeps rank and shared part *)
@@ -93,79 +123,95 @@ Proof.
   now apply length_resize_axis_shape.
 Qed.
 
-Lemma resize_array_firstn a diff axis c k :
-  k <= axis -> axis < length (shp a) ->
-  firstn k (shp (resize_array a diff axis c)) = firstn k (shp a).
+Lemma resize_array_nth a diff axis c j :
+  axis < length (shp a) -> j <> axis ->
+  nth j (shp (resize_array a diff axis c)) 0 = nth j (shp a) 0.
 Proof.
-  intros Hk H. unfold resize_array. destruct (diff =? 0)%Z; auto.
-  rewrite resize_axis_shape, firstn_app, firstn_firstn, firstn_length.
-  replace (k - Nat.min axis (length (shp a))) with 0 by lia.
-  rewrite firstn_O, app_nil_r. f_equal. lia.
+  intros H Hj. unfold resize_array. destruct (diff =? 0)%Z; auto.
+  rewrite nth_resize_axis_shape by assumption. destruct (Nat.eqb_spec j axis); [contradiction|reflexivity].
 Qed.
 
-Lemma resize_entry_wf ax diff cst e : wf_entry e -> wf_entry (resize_entry ax diff cst e).
+Lemma resize_array_slice a diff axis c lo hi :
+  axis < length (shp a) -> (axis < lo \/ hi <= axis) -> hi <= length (shp a) ->
+  slice lo hi (shp (resize_array a diff axis c)) = slice lo hi (shp a).
 Proof.
-  intros [rest [Hl [Hc Hr]]]. unfold resize_entry.
-  destruct (has_name ax (e_lay e)) eqn:Hn; [|exists rest; auto].
-  exists rest. simpl. split; [auto|split; auto].
-  rewrite resize_array_rank; auto.
-  rewrite Hl in *. pose proof (name_index_lt _ _ Hn) as Hlt.
-  assert (Hi : name_index ax (LEll :: rest) = S (name_index ax rest)) by reflexivity.
-  rewrite Hi in *. simpl in Hlt.
-  apply pos_of_first; lia.
+  intros H Hout Hhi. apply (nth_ext _ _ 0 0).
+  - rewrite !length_slice; auto. now rewrite resize_array_rank.
+  - intros i Hi. rewrite length_slice in Hi by (now rewrite resize_array_rank).
+    rewrite !nth_slice by lia. apply resize_array_nth; [assumption|lia].
+Qed.
+
+Lemma resize_entry_pos ax e pre rest :
+  e_lay e = pre ++ LEll :: rest -> count_ell pre = 0 ->
+  length pre + length rest <= length (shp (e_arr e)) -> has_name ax (e_lay e) = true ->
+  let p := pos_of (length (shp (e_arr e))) (e_lay e) (name_index ax (e_lay e)) in
+  p < length (shp (e_arr e)) /\ (p < length pre \/ length (shp (e_arr e)) - length rest <= p).
+Proof.
+  intros Hl Hc Hr Hn. pose proof (name_index_lt _ _ Hn) as Hlt. pose proof (name_index_nth _ _ Hn) as Hnth.
+  rewrite Hl in *. apply pos_of_split; auto.
+  intros E. rewrite E, nth_ell_split in Hnth. discriminate.
 Qed.
 
 Lemma resize_entry_lay ax diff cst e : e_lay (resize_entry ax diff cst e) = e_lay e.
 Proof. unfold resize_entry. destruct (has_name ax (e_lay e)); reflexivity. Qed.
 
+Lemma resize_entry_wf ax diff cst e : wf_entry e -> wf_entry (resize_entry ax diff cst e).
+Proof.
+  intros [pre [rest [Hl [Hc [Hc' Hr]]]]]. exists pre, rest. rewrite resize_entry_lay.
+  split; [auto|split; [auto|split; [auto|]]].
+  unfold resize_entry. destruct (has_name ax (e_lay e)) eqn:Hn; [|exact Hr]. simpl.
+  destruct (resize_entry_pos ax e pre rest Hl Hc Hr Hn) as [Hp _].
+  now rewrite resize_array_rank.
+Qed.
+
 Lemma resize_entry_shared ax diff cst e :
   wf_entry e -> entry_shared (resize_entry ax diff cst e) = entry_shared e.
 Proof.
-  intros [rest [Hl [Hc Hr]]]. unfold entry_shared. rewrite resize_entry_lay.
+  intros [pre [rest [Hl [Hc [Hc' Hr]]]]]. unfold entry_shared. rewrite resize_entry_lay.
   unfold resize_entry. destruct (has_name ax (e_lay e)) eqn:Hn; [|reflexivity]. simpl.
-  rewrite Hl in *. pose proof (name_index_lt _ _ Hn) as Hlt.
-  assert (Hi : name_index ax (LEll :: rest) = S (name_index ax rest)) by reflexivity.
-  rewrite Hi in *. simpl in Hlt.
-  set (ndim := length (shp (e_arr e))) in *.
-  destruct (pos_of_first rest ndim (S (name_index ax rest))) as [_ Hp]; try lia.
-  rewrite !shared_axes_first. rewrite resize_array_rank by (fold ndim; lia). fold ndim.
-  apply resize_array_firstn; fold ndim; lia.
+  destruct (resize_entry_pos ax e pre rest Hl Hc Hr Hn) as [Hp Hout].
+  rewrite Hl in *. rewrite !shared_axes_split by assumption.
+  rewrite resize_array_rank by assumption.
+  apply resize_array_slice; [assumption|lia|lia].
 Qed.
 
-Lemma resize_named_rank axes a rest :
-  length rest <= length (shp a) ->
-  length (shp (resize_named axes a (LEll :: rest))) = length (shp a) /\
-  firstn (length (shp a) - length rest) (shp (resize_named axes a (LEll :: rest))) =
-  firstn (length (shp a) - length rest) (shp a).
+Lemma resize_named_rank axes a pre rest :
+  count_ell pre = 0 -> length pre + length rest <= length (shp a) ->
+  let l := pre ++ LEll :: rest in
+  length (shp (resize_named axes a l)) = length (shp a) /\
+  shared_axes (shp (resize_named axes a l)) l = shared_axes (shp a) l.
 Proof.
-  intros Hr. unfold resize_named.
-  set (ndim := length (shp a)).
-  assert (Hall : forall p, In p (named_axes ndim (LEll :: rest)) -> ndim - length rest <= fst p < ndim)
-    by (intros p; apply named_axes_first; assumption).
-  assert (G : forall L arr, (forall p, In p L -> ndim - length rest <= fst p < ndim) ->
+  intros Hc Hr l.
+  set (ndim := length (shp a)). set (lo := length pre). set (hi := ndim - length rest).
+  assert (Hall : forall p, In p (named_axes ndim l) -> fst p < ndim /\ (fst p < lo \/ hi <= fst p))
+    by (intros p; apply named_axes_split; assumption).
+  assert (G : forall L arr, (forall p, In p L -> fst p < ndim /\ (fst p < lo \/ hi <= fst p)) ->
             length (shp arr) = ndim ->
             let r := fold_left (fun arr p =>
               let size := nth (fst p) (shp arr) 0 in
               match lookup (snd p) axes with
               | Some k => if size =? k then arr else resize_array arr (Z.of_nat k - Z.of_nat size) (fst p) 0%Z
               | None => arr end) L arr in
-            length (shp r) = ndim /\ firstn (ndim - length rest) (shp r) = firstn (ndim - length rest) (shp arr)).
+            length (shp r) = ndim /\ slice lo hi (shp r) = slice lo hi (shp arr)).
   { induction L as [|p L IH]; intros arr HL Ha; simpl; [auto|].
     set (arr' := match lookup (snd p) axes with
                  | Some k => if nth (fst p) (shp arr) 0 =? k then arr
                              else resize_array arr (Z.of_nat k - Z.of_nat (nth (fst p) (shp arr) 0)) (fst p) 0%Z
                  | None => arr end).
-    assert (Hp : ndim - length rest <= fst p < ndim) by (apply HL; left; reflexivity).
-    assert (H' : length (shp arr') = ndim /\
-                 firstn (ndim - length rest) (shp arr') = firstn (ndim - length rest) (shp arr)).
+    assert (Hp : fst p < ndim /\ (fst p < lo \/ hi <= fst p)) by (apply HL; left; reflexivity).
+    assert (H' : length (shp arr') = ndim /\ slice lo hi (shp arr') = slice lo hi (shp arr)).
     { unfold arr'. destruct (lookup (snd p) axes); [|auto].
       destruct (_ =? _); [auto|]. split.
       - rewrite resize_array_rank; lia.
-      - apply resize_array_firstn; lia. }
+      - apply resize_array_slice; unfold hi in *; lia. }
     destruct H' as [H1 H2].
     destruct (IH arr' (fun q Hq => HL q (or_intror Hq)) H1) as [H3 H4].
     split; [exact H3|exact (eq_trans H4 H2)]. }
-  apply (G _ a Hall eq_refl).
+  assert (R : length (shp (resize_named axes a l)) = ndim /\
+              slice lo hi (shp (resize_named axes a l)) = slice lo hi (shp a))
+    by exact (G _ a Hall eq_refl).
+  destruct R as [G1 G2]. split; [exact G1|].
+  subst l. rewrite !shared_axes_split by assumption. rewrite G1. exact G2.
 Qed.
 
 (* ------------------------------------------------------------------ the cache invariant *)
@@ -192,28 +238,29 @@ Qed.
 Lemma cache_init app : CacheInv (init app).
 Proof. apply cache_with_arrays. intros nm e []. Qed.
 
+Lemma set_layout_wf c name lay :
+  (forall nm e, In (nm, e) (c_arrays c) -> wf_entry e) ->
+  let l := match lay with Some l => l | None =>
+             match lookup name (c_arrays c) with Some e => e_lay e | None => [LEll] end end in
+  count_ell l = 1 -> exists pre rest, l = pre ++ LEll :: rest /\ count_ell pre = 0 /\ count_ell rest = 0.
+Proof. intros _ l H. now apply count_one_split. Qed.
+
 Lemma cache_set c name a lay rsz chk c' :
-  (forall l, lay = Some l -> lay_first l) ->
   CacheInv c -> set c name a lay rsz chk = Ok c' -> CacheInv c'.
 Proof.
-  intros Hlay [_ [_ Hwf]] Hs. unfold set in Hs.
+  intros [_ [_ Hwf]] Hs. unfold set in Hs.
   set (l := match lay with Some l => l | None =>
              match lookup name (c_arrays c) with Some e => e_lay e | None => [LEll] end end) in *.
-  assert (Hl : lay_first l).
-  { unfold l. destruct lay; [now apply Hlay|].
-    destruct (lookup name (c_arrays c)) eqn:E.
-    - apply lookup_in in E. destruct (Hwf _ _ E) as [rest [H1 [H2 _]]]. exists rest. auto.
-    - exists []. auto. }
-  destruct Hl as [rest [Hl Hc]]. rewrite Hl in *.
-  destruct (negb (count_ell (LEll :: rest) =? 1)); [discriminate|].
-  destruct (Nat.ltb_spec (length (shp a) + 1) (length (LEll :: rest))); [discriminate|].
-  simpl in H.
+  destruct (Nat.eqb_spec (count_ell l) 1) as [Hone|]; [|discriminate]. cbn [negb] in Hs.
+  destruct (count_one_split l Hone) as [pre [rest [Hl [Hc Hc']]]].
+  destruct (Nat.ltb_spec (length (shp a) + 1) (length l)) as [|Hrank]; [discriminate|].
+  rewrite Hl, app_length in Hrank. simpl in Hrank.
   match type of Hs with (if ?b then _ else _) = _ => destruct b; [discriminate|] end.
   inversion Hs; subst c'. apply cache_with_arrays.
   intros nm e Hin. apply in_set_assoc in Hin. destruct Hin as [[_ ->]|Hin]; [|eauto].
-  exists rest. simpl. split; [auto|split; auto].
-  destruct rsz; [|lia].
-  destruct (resize_named_rank (gna (c_arrays c) (Some name)) a rest) as [-> _]; lia.
+  exists pre, rest. simpl. split; [auto|split; [auto|split; [auto|]]].
+  destruct rsz; [|lia]. rewrite Hl.
+  destruct (resize_named_rank (gna (c_arrays c) (Some name)) a pre rest) as [-> _]; auto; lia.
 Qed.
 
 Lemma set_data_lookup name d arrs nm e' :
@@ -245,16 +292,15 @@ Lemma cache_update c name v rsz c' p :
 Proof.
   intros HI Hu. unfold update in Hu.
   destruct (lookup name (c_arrays c)) as [e|] eqn:E; [|discriminate].
-  destruct (shp (e_arr e)) eqn:Esh; [discriminate|]. rewrite <- Esh in Hu.
   destruct (assign_to v (shp (e_arr e))) as [d|].
   - inversion Hu; subst. destruct HI as [H1 [H2 H3]].
     unfold CacheInv. simpl. split; [|split].
     + rewrite set_data_shared. exact H1.
     + intros nm e' Hl. apply set_data_lookup in Hl. destruct Hl as [e0 [Hl [-> ->]]]. auto.
     + intros nm e' Hin. apply set_data_in in Hin. destruct Hin as [e0 [Hin [Hlay Hshp]]].
-      destruct (H3 _ _ Hin) as [rest [Ha [Hb Hc]]]. exists rest. rewrite Hlay, Hshp. auto.
+      destruct (H3 _ _ Hin) as [pre [rest [Ha [Hb [Hc Hd]]]]]. exists pre, rest. rewrite Hlay, Hshp. auto.
   - destruct (set c name v None rsz false) as [c1|] eqn:Es; [|discriminate].
-    inversion Hu; subst. eapply cache_set; [|exact HI|exact Es]. discriminate.
+    inversion Hu; subst. eapply cache_set; [exact HI|exact Es].
 Qed.
 
 Lemma cache_pop c name : CacheInv c -> CacheInv (fst (pop c name)).
@@ -304,18 +350,12 @@ Proof. intros [_ [_ H]]. apply cache_with_arrays. exact H. Qed.
 Lemma copy_id c : copy c = c.
 Proof. destruct c; reflexivity. Qed.
 
-(* explicit layouts of a call history are ellipsis-first (the only ones StateMatrix uses) *)
-Definition bop_first (o : bop) : Prop :=
-  match o with OSet _ _ (Some l) _ _ => lay_first l | _ => True end.
-Definition op_first (o : op) : Prop :=
-  match o with OMain b | OChild b => bop_first b | _ => True end.
-
 Lemma cache_bstep c o c' p r :
-  bop_first o -> CacheInv c -> bstep c o = Ok (c', p, r) -> CacheInv c'.
+  CacheInv c -> bstep c o = Ok (c', p, r) -> CacheInv c'.
 Proof.
-  intros Hf HI Hs. destruct o; simpl in Hs.
+  intros HI Hs. destruct o; simpl in Hs.
   - destruct (set c name a lay rsz chk) eqn:E; inversion Hs; subst.
-    eapply cache_set; [|exact HI|exact E]. intros l ->. exact Hf.
+    eapply cache_set; [exact HI|exact E].
   - destruct (update c name a rsz) as [[c1 p1]|] eqn:E; inversion Hs; subst.
     eapply cache_update; eauto.
   - destruct (get c name bcast); inversion Hs; subst. exact HI.
@@ -333,21 +373,21 @@ Definition CacheInvS (s : state) : Prop :=
 Lemma cache_follow parent ch : CacheInv ch -> CacheInv (follow parent ch).
 Proof. apply cache_same_arrays. Qed.
 
-Lemma cache_step s o : op_first o -> CacheInvS s -> CacheInvS (step_state s o).
+Lemma cache_step s o : CacheInvS s -> CacheInvS (step_state s o).
 Proof.
-  intros Hf [Hm Hc]. unfold step_state.
+  intros [Hm Hc]. unfold step_state.
   destruct (step s o) as [[s' r]|] eqn:E; [|split; assumption].
   destruct o; simpl in E.
   - destruct (bstep (main s) o) as [[[c' p] r']|] eqn:Eb; inversion E; subst; clear E.
     split; simpl.
-    + exact (cache_bstep _ _ _ _ _ Hf Hm Eb).
+    + exact (cache_bstep _ _ _ _ _ Hm Eb).
     + intros ch Hch. destruct p; [|auto].
       destruct (child s) as [ch0|]; simpl in Hch; inversion Hch; subst.
       apply cache_follow. auto.
   - destruct (child s) as [ch|] eqn:Ech; [|discriminate].
     destruct (bstep ch o) as [[[c' p] r']|] eqn:Eb; inversion E; subst; clear E.
     split; simpl; [assumption|]. intros ch' Hch'. inversion Hch'; subst.
-    exact (cache_bstep _ _ _ _ _ Hf (Hc _ eq_refl) Eb).
+    exact (cache_bstep _ _ _ _ _ (Hc _ eq_refl) Eb).
   - inversion E; subst. split; simpl; [now rewrite copy_id|assumption].
   - destruct (child s) eqn:Ech; inversion E; subst. split; simpl; [assumption|].
     intros ch Hch. inversion Hch; subst. apply cache_follow, cache_init.
@@ -356,15 +396,15 @@ Qed.
 Lemma cache_start app : CacheInvS (start app).
 Proof. split; [apply cache_init|]. simpl. discriminate. Qed.
 
-Lemma cache_run s h : List.Forall op_first h -> CacheInvS s -> CacheInvS (run s h).
+Lemma cache_run s h : CacheInvS s -> CacheInvS (run s h).
 Proof.
-  unfold run. revert s. induction h as [|o h IH]; intros s Hf HI; simpl; [assumption|].
-  inversion Hf; subst. apply IH; [assumption|]. now apply cache_step.
+  unfold run. revert s. induction h as [|o h IH]; intros s HI; simpl; [assumption|].
+  apply IH. now apply cache_step.
 Qed.
 
 (* the shape caches are coherent after every call history, both expand conventions *)
-Theorem cache_reachable app h : List.Forall op_first h -> CacheInvS (run (start app) h).
-Proof. intros H. apply cache_run; [assumption|apply cache_start]. Qed.
+Theorem cache_reachable app h : CacheInvS (run (start app) h).
+Proof. apply cache_run, cache_start. Qed.
 
 (* ------------------------------------------------------------------ copy *)
 (* copy() returns a collection with the same observable state (independence of the memory is
@@ -379,30 +419,34 @@ Definition all_ok (s : state) (h : list op) : bool :=
 Definition gets_ok (c : coll) : bool :=
   forallb (fun p => match snd p with Ok _ => true | Err _ => false end) (get_all c).
 
-(* check_shape slices the broadcast part wrongly when the ellipsis is not the first item:
-   a shape-incompatible insertion is accepted and the next get raises *)
-Lemma set_incompatible_raises_refuted :
-  exists app h, all_ok (start app) h = true /\
-                get (main (run (start app) h)) 2 true = Err EValue.
-Proof.
-  exists false, [OMain (OBroadcast [3]); OMain (OSet 2 (zeros [3; 2]) (Some [LName 0; LEll]) false true)].
-  vm_compute. split; reflexivity.
-Qed.
+(* regression (repaired check_shape): with the ellipsis not first, the incompatible insertion
+   broadcast((3,)); set('c', zeros((3,2)), layout=['n', ...]) now raises ValueError *)
+Lemma set_incompatible_nonleading_example :
+  step (run (start false) [OMain (OBroadcast [3])])
+       (OMain (OSet 2 (zeros [3; 2]) (Some [LName 0; LEll]) false true)) = Err EValue.
+Proof. vm_compute. reflexivity. Qed.
+
+(* regression (repaired update): a stored 0-d array is updated in place *)
+Lemma update_0d_example :
+  let s := run (start false) [OMain (OSet 0 (mkNd [] [7%Z]) None false true);
+                              OMain (OUpdate 0 (mkNd [] [8%Z]) false)] in
+  get (main s) 0 true = Ok (Some (mkNd [] [8%Z])).
+Proof. vm_compute. reflexivity. Qed.
 
 (* update falls back to set(check=False): ellipsis-first layouts, every call returns normally,
    afterwards a stored array cannot be returned *)
 Lemma update_unchecked_refuted :
-  exists app h, List.Forall op_first h /\ all_ok (start app) h = true /\
+  exists app h, all_ok (start app) h = true /\
                 get (main (run (start app) h)) 1 true = Err EValue.
 Proof.
   exists false, [OMain (OSet 0 (zeros [2]) None false true); OMain (OSet 1 (zeros [2]) None false true);
                  OMain (OUpdate 0 (zeros [3]) false)].
-  split; [repeat constructor|]. vm_compute. split; reflexivity.
+  vm_compute. split; reflexivity.
 Qed.
 
 (* ... or a named axis has two sizes *)
 Lemma update_named_axis_refuted :
-  exists app h, List.Forall op_first h /\ all_ok (start app) h = true /\
+  exists app h, all_ok (start app) h = true /\
     let c := main (run (start app) h) in
     option_map (fun e => shp (e_arr e)) (lookup 0 (c_arrays c)) = Some [5] /\
     option_map (fun e => shp (e_arr e)) (lookup 1 (c_arrays c)) = Some [3] /\
@@ -412,16 +456,7 @@ Proof.
   exists false, [OMain (OSet 0 (zeros [3]) (Some [LEll; LName 0]) false true);
                  OMain (OSet 1 (zeros [3]) (Some [LEll; LName 0]) false true);
                  OMain (OUpdate 0 (zeros [5]) false)].
-  split; [repeat constructor; exists [LName 0]; split; reflexivity|]. vm_compute. repeat split; reflexivity.
-Qed.
-
-(* update of a stored 0-d array raises IndexError, whatever the value *)
-Lemma update_0d_refuted :
-  exists app h v, all_ok (start app) h = true /\
-    step (run (start app) h) (OMain (OUpdate 0 v false)) = Err EIndex.
-Proof.
-  exists false, [OMain (OSet 0 (mkNd [] [7%Z]) None false true)], (mkNd [] [8%Z]).
-  vm_compute. split; reflexivity.
+  vm_compute. repeat split; reflexivity.
 Qed.
 
 (* pop does not refresh the named-axes cache *)
@@ -435,13 +470,13 @@ Qed.
 
 (* a linked collection's default is overwritten by the parent's shape without any check *)
 Lemma link_child_refuted :
-  exists app h, List.Forall op_first h /\ all_ok (start app) h = true /\
+  exists app h, all_ok (start app) h = true /\
     match child (run (start app) h) with Some ch => get ch 0 true = Err EValue | None => False end.
 Proof.
   exists false, [OMain (OSet 0 (zeros [2]) None false true); OLink false;
                  OChild (OSet 0 (zeros [2]) None false true); OMain (OPop 0);
                  OMain (OSet 0 (zeros [3]) None false true)].
-  split; [repeat constructor|]. vm_compute. split; reflexivity.
+  vm_compute. split; reflexivity.
 Qed.
 
 (* ================================================================== the full invariant *)
@@ -809,7 +844,6 @@ Proof.
   intros [HC HK] Hu. split; [eapply cache_update; eauto|].
   unfold update in Hu.
   destruct (lookup name (c_arrays c)) as [e|]; [|discriminate].
-  destruct (shp (e_arr e)); [discriminate|].
   destruct (assign_to v _) as [d|].
   - inversion Hu; subst. unfold Compat. simpl. rewrite set_data_shared. exact HK.
   - destruct (set c name v None rsz false); inversion Hu.
@@ -839,7 +873,7 @@ Lemma update_fallback c name v rsz c1 :
   update c name v rsz = Ok (c1, true) -> set c name v None rsz false = Ok c1.
 Proof.
   unfold update. destruct (lookup name (c_arrays c)); [|discriminate].
-  destruct (shp (e_arr e)); [discriminate|]. destruct (assign_to v _); [intros H; inversion H|].
+  destruct (assign_to v _); [intros H; inversion H|].
   destruct (set c name v None rsz false); intros H; inversion H; reflexivity.
 Qed.
 
